@@ -693,7 +693,9 @@ func c04Diff(o *zl.Obj, reg lint.Registry) [][2]string {
 
 // canonTokens: the details text as a sorted multiset of its comma/blank separated tokens.
 func canonTokens(s string) string {
-	t := strings.FieldsFunc(s, func(r rune) bool { return r == ',' || r == ' ' || r == '[' || r == ']' || r == '(' || r == ')' || r == ';' })
+	t := strings.FieldsFunc(s, func(r rune) bool {
+		return r == ',' || r == ' ' || r == '[' || r == ']' || r == '(' || r == ')' || r == ';'
+	})
 	sortStrings(t)
 	return strings.Join(t, " ")
 }
@@ -706,7 +708,7 @@ func c04E3(ctx *core.Ctx, rep *core.Report) {
 	}
 	sel := pickSeeds(all, argInt(ctx, "nth", nth))
 	g := lint.GlobalRegistry()
-	xstate.Explore(ctx, rep, xstate.Options{Seeds: sel, Depth: 1}, func(st *xstate.State) {
+	xstate.Explore(ctx, rep, xstate.Options{Seeds: sel, Depth: 1, NoCompound: ctx.Quick()}, func(st *xstate.State) {
 		rep.Inc("validated")
 		rep.Inc("diff_states")
 		for _, b := range c04Diff(st.Obj, g) {
